@@ -934,3 +934,91 @@ fn c03x_partial_direct_then_hb(7) {
   rig.finish();
 }
 }
+
+// ------------------------------------------------------------------ partially received sample: the ACKNACK half
+/// kani::stub target for Reader::missing_frags_for: no fragment numbers.  The real code then
+/// builds no NACKFRAG ("The dog ate my missing fragments") and goes on to the ACKNACK, which is
+/// what the harness below judges; building the NACKFRAG (Box<dyn Iterator> chain, BTreeSet,
+/// FragmentNumberSet) is the half of handle_heartbeat_msg that did not finish (bisected), and
+/// its content is decided on the FragmentAssembler (c05_missing_frags_*).  Natively the real
+/// function runs and a NACKFRAG is sent as well; the oracle does not look at it.
+#[cfg(kani)]
+pub(crate) fn stub_missing_frags_for<'a>(
+  _this: &'a Reader,
+  _writer_guid: GUID,
+  _seq: SequenceNumber,
+) -> Box<dyn 'a + Iterator<Item = FragmentNumber>> {
+  Box::new(core::iter::empty())
+}
+
+macro_rules! reader_harness_no_nackfrag {
+  ($(#[$m:meta])* fn $name:ident($unwind:expr) $body:block) => {
+    $(#[$m])*
+    #[cfg_attr(kani, kani::proof, kani::unwind($unwind))]
+    #[cfg_attr(
+      kani,
+      kani::stub(Reader::missing_frags_for, stub_missing_frags_for),
+      kani::stub(Reader::encode_and_send, stub_encode_and_send),
+      kani::stub(Reader::send_status_change, stub_send_status_change),
+      kani::stub(Reader::send_participant_status, stub_send_participant_status),
+      kani::stub(Reader::notify_cache_change, stub_notify_cache_change),
+      kani::stub(crate::structure::time::Timestamp::now, crate::structure::time::verif_harness_env_time::stub_now),
+      kani::stub(std::time::Instant::now, crate::structure::time::verif_harness_env_time::stub_instant_now),
+      kani::stub(crate::mio_source::make_poll_channel, crate::mio_source::verif_harness_env_mio::stub_make_poll_channel),
+      kani::stub(crate::mio_source::PollEventSender::send, crate::mio_source::verif_harness_env_mio::stub_send),
+      kani::stub(crate::mio_source::PollEventSource::drain, crate::mio_source::verif_harness_env_mio::stub_drain),
+      kani::stub(std::fmt::format, crate::verif_env::stub_format),
+      kani::stub(std::vec::Vec::push, crate::verif_env::stub_vec_push),
+      kani::stub(alloc::vec::from_elem, crate::verif_env::stub_vec_from_elem)
+    )]
+    #[cfg_attr(verif_replay, test)]
+    fn $name() {
+      vk::begin(stringify!($name));
+      $body;
+      vk::end();
+    }
+  };
+}
+
+/// C03, partially received sample, ACKNACK half: fragment `got` of 3 of SN 1 arrived (concrete
+/// prefix through the real handle_datafrag_msg), then a symbolic HEARTBEAT(1..last, final flag
+/// free).  SN 1 is neither received nor unavailable, so the ACKNACK must not acknowledge it
+/// (base == 1), must not list it (it is requested by NACKFRAG), and must list exactly the wholly
+/// missing SNs 2..last.
+fn partial_fragment_then_hb_acknack(got: u32) {
+  let mut rig = make_rig(reliable_qos(), false, reader_guid());
+  rig.match_writer(1, &reliable_qos());
+  let st = rig.mr_state(1, None);
+  let flags = BitFlags::<DATAFRAG_Flags>::from_flag(DATAFRAG_Flags::Endianness);
+  let d = datafrag(1, 1, got);
+  rig.reader.handle_datafrag_msg(&d, flags, &st);
+  core::mem::forget(d);
+  let s0 = rig.take_sent();
+  assert!(s0.n_acks == 0 && s0.n_nackfrags == 0, "DATAFRAG answered");
+  assert!(rig.reader.is_frag_partially_received(writer_guid(1), SequenceNumber::new(1)), "fragment not in assembly");
+  let last = vk::range_i64(1, 3);
+  let fin: bool = vk::any();
+  let hb = heartbeat(1, 1, last, 1);
+  rig.reader.handle_heartbeat_msg(&hb, fin, &st);
+  let sent = rig.take_sent();
+  assert!(sent.n_acks == 1, "HEARTBEAT with a missing sample not answered by exactly one ACKNACK");
+  let a = sent.acks[0].unwrap();
+  assert!(a.base == 1, "ACKNACK acknowledges a sample of which only one fragment arrived");
+  assert!(!a.requests(0), "partially received sample listed in the ACKNACK as well");
+  let mut s = 2i64;
+  while s <= 3 {
+    assert!(a.requests(s - a.base) == (s <= last), "ACKNACK does not list exactly the wholly missing samples of the advertised range");
+    s += 1;
+  }
+  vk_cover!(last == 3, "three advertised");
+  vk_cover!(last == 1, "only the partial sample advertised");
+  core::mem::forget(sent);
+  core::mem::forget(st);
+  rig.finish();
+}
+reader_harness_no_nackfrag! {
+fn c03_reader_partial_fragment_g2_acknack(7) { partial_fragment_then_hb_acknack(2) }
+}
+reader_harness_no_nackfrag! {
+fn c03_reader_partial_fragment_g1_acknack(7) { partial_fragment_then_hb_acknack(1) }
+}
